@@ -52,6 +52,7 @@ impl Swarm {
         s.w_borrow_boundary = rng.range(6, 16) as u32;
         s.w_hunter = rng.range(6, 16) as u32;
         s.w_oracle = rng.range(2, 8) as u32;
+        s.w_receivership = rng.range(3, 10) as u32;
         s
     }
     pub fn tx(rng: &mut Rng, faults: bool) -> Self {
@@ -795,7 +796,16 @@ pub fn drill_bankruptcy(sim: &mut Sim, ctx: &mut Ctx) -> Option<Tx> {
         signer = ctx.world.stranger;
     }
     let rm = risk_metas(&sim.store, &ma, None, None);
-    Some(Tx::one("bankruptcy", ix::handle_bankruptcy(&b.keys, signer, ma, rm)))
+    let mut hb = ix::handle_bankruptcy(&b.keys, signer, ma, rm);
+    if signer != ctx.world.stranger && ctx.rng.chance(1, 6) {
+        sim.stats.fault("bankruptcy_entitled_key_named_but_not_signing");
+        for m in hb.accounts.iter_mut() {
+            if m.pubkey == signer {
+                m.is_signer = false;
+            }
+        }
+    }
+    Some(Tx::one("bankruptcy", hb))
 }
 
 // ---------- reference-guided actors (boundary search on forks) -----------------------------------
@@ -1041,7 +1051,16 @@ fn bankruptcy_tx(sim: &Sim, ctx: &mut Ctx, gi: usize, ma: Pubkey) -> Option<Tx> 
         _ => g.admins.risk,
     };
     let rm = risk_metas(&sim.store, &ma, None, None);
-    Some(Tx::one("bankruptcy", ix::handle_bankruptcy(&b.keys, signer, ma, rm)))
+    let mut hb = ix::handle_bankruptcy(&b.keys, signer, ma, rm);
+    if signer != ctx.world.stranger && ctx.rng.chance(1, 6) {
+        // the entitled key is named but does not sign (somebody else pays for the transaction)
+        for m in hb.accounts.iter_mut() {
+            if m.pubkey == signer {
+                m.is_signer = false;
+            }
+        }
+    }
+    Some(Tx::one("bankruptcy", hb))
 }
 
 fn liquidation_boundary(
